@@ -689,6 +689,53 @@ func stunBuilt(r *vgen.Rand) ([]byte, string) {
 	return stunMsg(r, msgType, !r.Chance(1, 12), as, lenMode, fp), fmt.Sprintf("built-%s-attrs%d-fp=%v-len%d", kind, len(as), fp, lenMode)
 }
 
+// extTails enumerates option areas (length 4k-2, to follow the two bytes NextHdr / ExtLen) that are malformed at
+// their end, and a few well-formed ones for contrast.
+func extTails() [][]byte {
+	var out [][]byte
+	fill := func(n int, tail []byte) []byte { // Pad1 / PadN / a small option, then the tail
+		b := make([]byte, 0, n)
+		rest := n - len(tail)
+		switch {
+		case rest >= 5:
+			b = append(b, 7, 1, 0xaa)      // a 3-byte option
+			b = append(b, 1, byte(rest-5)) // PadN covering what is left
+			b = append(b, make([]byte, rest-5)...)
+		case rest >= 2:
+			b = append(b, 1, byte(rest-2))
+			b = append(b, make([]byte, rest-2)...)
+		case rest == 1:
+			b = append(b, 0)
+		}
+		return append(b, tail...)
+	}
+	for _, n := range []int{2, 6, 10, 30} {
+		// lone byte that is not Pad1: PadN, authenticator, unknown types
+		for _, t := range []byte{1, 2, 3, 77, 255} {
+			out = append(out, fill(n, []byte{t}))
+		}
+		// last option's length overruns the extension by 1, 2, 3 bytes and by far (0 data bytes present ...)
+		for _, over := range []int{1, 2, 3, 200} {
+			out = append(out, fill(n, []byte{9, byte(over)}))
+			if n >= 6 {
+				out = append(out, fill(n, []byte{2, byte(2 + over), 0xbb, 0xcc})) // ... and 2 present
+			}
+		}
+		// well-formed: padding only, one option exactly filling the area
+		out = append(out, make([]byte, n))
+		out = append(out, append([]byte{9, byte(n - 2)}, make([]byte, n-2)...))
+	}
+	// authenticator options: truncated inside the metadata, metadata only, complete with a wrong tag (decoded by
+	// ParsePacketAuthOption and verified by hasValidAuth), complete followed by a lone byte
+	meta := []byte{0, 0, 0, 1, 0, 0, 0, 0, 0, 1, 2, 3}
+	out = append(out, append([]byte{2, 8}, meta[:8]...))                                             // 10 bytes
+	out = append(out, append(append([]byte{2, 12}, meta...), 0, 0, 0, 0)[:14])                        // metadata only
+	out = append(out, append(append([]byte{2, 28}, meta...), make([]byte, 16)...))                    // complete (30)
+	out = append(out, append(append(append([]byte{2, 28}, meta...), make([]byte, 16)...), 0, 0, 0, 5)) // + lone byte (34)
+	out = append(out, append([]byte{2, 28}, meta...))                                                 // announces 28, has 12 (14 bytes)
+	return out
+}
+
 func scionish(r *vgen.Rand, n int) []byte {
 	b := r.Bytes(n)
 	if n < 12 {
@@ -836,6 +883,90 @@ func main() {
 			}
 			sc.Mut = fmt.Sprintf("l4-proto%d-len%d", proto, n)
 			x.emitModel("short-l4", cf, sc)
+		}
+	}
+	// ---- stream 1b'': SCMP ERROR messages of every known type delivered to a local IP host, with every kind of
+	// quote: none at all, 1..7 bytes, exactly a common header, header without / with truncated upper layer, body
+	// of the error message itself cut short (dstScionPort -> getDstPortSCMP -> decodeSCMP / gopacket)
+	{
+		full := spgen.InnerQuote(vgen.NewRand(run.Seed).Fork(160000))
+		for len(full) < 80 {
+			full = spgen.InnerQuote(x.rng.Fork(uint64(160001 + len(full))))
+		}
+		quotes := [][]byte{{}}
+		for n := 1; n <= 7; n++ {
+			quotes = append(quotes, full[:n])
+		}
+		for _, n := range []int{8, 11, 12, 13, 27, 28, 36, 40, 48, 71, 72, 73, 76, 79, 80} {
+			quotes = append(quotes, full[:min(n, len(full))])
+		}
+		quotes = append(quotes, full)
+		k := 0
+		for _, t := range []uint8{1, 2, 4, 5, 6} {
+			for qi, q := range quotes {
+				for _, cut := range []int{-1, 4 + qi%5} { // whole message / cut inside or right after the SCMP header
+					if cut >= 0 && qi%4 != 0 {
+						continue
+					}
+					r := x.rng.Fork(uint64(161000 + k))
+					cf := x.cfgs[k%len(x.cfgs)]
+					k++
+					sc := rtgen.GenValid(r, cf.rt.Cfg, x.now, "inbound")
+					sc.Desc.L4 = spgen.SCMPMsg(r, t, q, cut)
+					sc.Desc.Dst = rtgen.HostIP4(10, 0, 6, byte(1+qi))
+					sc.Desc.HBH, sc.Desc.E2E = nil, nil
+					if k%4 == 0 {
+						sc.Desc.E2E = []rtgen.Opt{{Type: 9, Data: r.Bytes(3)}}
+					}
+					sc.Mut = fmt.Sprintf("scmp-error-type%d-quote%d-cut%d", t, len(q), cut)
+					x.emitModel("scmp-error-inbound", cf, sc)
+				}
+			}
+		}
+	}
+	// ---- stream 1b''': extension headers whose option area is malformed at its END (the skippers of the fast path
+	// do not look at options; the slow path's hasValidAuth decodes the E2E options when authentication is on and it
+	// builds a traceroute reply): lone non-Pad1 byte, truncated option header, option length overrunning the
+	// extension by 1..3 bytes / by far, truncated and complete authenticator options — on router-alert traceroute
+	// requests and on packets with an error cause, on all configurations (authentication on and off)
+	{
+		tails := extTails()
+		k := 0
+		for ti, area := range tails {
+			for v := 0; v < 4; v++ {
+				if v > 0 && ti%3 != v-1 && run.Tier != "thorough" {
+					continue
+				}
+				r := x.rng.Fork(uint64(170000 + k))
+				cf := x.cfgs[(2*k+1)%len(x.cfgs)] // odd configurations authenticate
+				if v == 3 {
+					cf = x.cfgs[(2*k)%len(x.cfgs)]
+				}
+				k++
+				sc := rtgen.GenValid(r, cf.rt.Cfg, x.now, kinds[(ti+v)%len(rtgen.Kinds)])
+				what := "alert"
+				if v == 2 {
+					what = vgen.Pick(r, "mac", "expired", "paylen", "consegress")
+				}
+				rtgen.Mutate(r, sc, cf.rt.Cfg, x.now, what)
+				if what == "alert" {
+					// set both flags on the current hop so that this router is the one addressed
+					h := &sc.Desc.Hops[min(int(sc.Desc.CurrHF), len(sc.Desc.Hops)-1)]
+					h.IngressAlert, h.EgressAlert = true, true
+				}
+				tr := rtgen.SCMPTraceroute(false, uint16(r.U64()), uint16(r.U64()), 0, 0).Bytes
+				e2e := append([]byte{202, byte((len(area)+2)/4 - 1)}, area...)
+				sc.Desc.HBH, sc.Desc.E2E = nil, nil
+				switch v {
+				case 1: // the same area in a HBH header in front of a well-formed E2E header
+					hbh := append([]byte{201, byte((len(area)+2)/4 - 1)}, area...)
+					sc.Desc.L4 = rtgen.RawL4(200, append(append(hbh, 202, 0, 0, 0), tr...))
+				default:
+					sc.Desc.L4 = rtgen.RawL4(201, append(e2e, tr...))
+				}
+				sc.Mut = fmt.Sprintf("%s+ext-tail-%d", what, ti)
+				x.emitModel("ext-tail", cf, sc)
+			}
 		}
 	}
 	// ---- stream 1c: one-hop and empty paths
